@@ -735,6 +735,35 @@ def rule_R24(text, applied):
     return text
 
 
+def rule_R25(text, applied):
+    """`X.iter().flatten().take(N).collect::<Vec<_>>()` over a Vec of 128-slot chunks -> `vflatten_take(&X, N)`
+    (verified helper, prelude/flatten_take.rs: references to the first N slots in slot order)."""
+    t, n = _sub_masked(text, r"((?:\w+\s*\.\s*)*\w+)\s*\.\s*iter\(\)\s*\.\s*flatten\(\)\s*\.\s*take\(([^()]*(?:\([^()]*\))?[^()]*)\)\s*\.\s*collect::<Vec<_>>\(\)",
+                       lambda m, s_: f"vflatten_take(&{''.join(m.group(1).split())}, {' '.join(s_[m.start(2):m.end(2)].split())})")
+    if n:
+        applied.append(f"R25x{n}")
+    return t
+
+
+def rule_R7optake(text, applied):
+    """`for (I, X) in E.into_iter().enumerate() {` over an owned Vec<Option<T>> -> index loop that moves each element
+    out with Option::take: `let mut own_ = E; let mut I: usize = 0; while I < own_.len() { let X = own_[I].take();`
+    and `I += 1;` as the last statement of the body (each element is consumed exactly once, in order)."""
+    m_text = mask(text)
+    m = re.search(r"\bfor\s*\(\s*(\w+)\s*,\s*(\w+)\s*\)\s*in\s+(\w+)\s*\.\s*into_iter\(\)\s*\.\s*enumerate\(\)\s*\{", m_text)
+    if not m:
+        raise ExtractError("R7optake: loop not found (lost anchor)")
+    i_, x_, e_ = m.group(1), m.group(2), m.group(3)
+    ob = m.end() - 1
+    cb = match_close(m_text, ob)
+    if re.search(r"\bcontinue\b", m_text[ob:cb]):
+        raise ExtractError("R7optake: loop body uses continue (outside the subset)")
+    head = f"let mut own_ = {e_}; let mut {i_}: usize = 0; while {i_} < own_.len() {{ let {x_} = own_[{i_}].take();"
+    text = text[:m.start()] + _keep_newlines(text[m.start():m.end()], head) + text[m.end():cb] + f"{i_} += 1; " + text[cb:]
+    applied.append("R7optake")
+    return text
+
+
 def rule_R6(text, applied):
     """receiver `mut self` -> `self` plus `let mut self_ = self;` as first statement; `self` -> `self_` in the body."""
     m_text = mask(text)
@@ -1390,6 +1419,7 @@ def rule_const(text, applied):
 
 
 RULES = {
+    "R25": rule_R25, "R7optake": rule_R7optake,
     "R23": rule_R23, "R24": rule_R24,
     "R16push": rule_R16push, "R22": rule_R22, "R22flat": rule_R22flat,
     "R20": rule_R20, "R21": rule_R21, "R7stackrev": rule_R7stackrev,
